@@ -12,6 +12,7 @@ ORIGIN = {
     1: "fresh sub-agent given only the property text and a scratch worktree",
     2: "second-round sub-agent (brief: seeded/BRIEF2.md: size thresholds, hidden state, rare dtypes, argument combinations, names)",
     3: "third-round sub-agent (brief: seeded/BRIEF3.md)",
+    12: "twelfth-round sub-agent (brief: seeded/BRIEF12.md: one change per property - low-level shared helpers, two cooperating sites, NumPy 2 / StringDType / datetime-unit corners)",
     11: "eleventh-round sub-agent (brief: seeded/BRIEF11.md: one change per property - rewrites that look like improvements: performance rewrites, clean-ups, support for more input)",
     10: "tenth-round sub-agent (brief: seeded/BRIEF10.md: provenance of the operand, chains of three or more operations, particular values)",
     9: "ninth-round sub-agent (brief: seeded/BRIEF9.md: functions no earlier change had edited, and equivalent public routes one of which stays right)",
